@@ -307,7 +307,8 @@ def run(ctx, chk):
     except Anchor as ex:
         chk.bad(R7, "ModuleHeader::disassemble", "not analysable: %s" % ex, raw.where("disassemble", "ModuleHeader", "disassemble.rs"))
     WG = raw.where("generator", "ModuleHeader")
-    for tool in list(range(0, 18)) + [255, 0xffff]:
+    # registered tools, the first unregistered ones, and numbers that only differ from a registered one above the low byte
+    for tool in list(range(0, 18)) + [255, 256, 256 + 7, 256 + 15, 0x1000, 0x8001, 0xff00, 0xffff]:
         word = (tool << 16) | 0x1234
         try:
             r = disx.generator(ctx, word)
